@@ -4,6 +4,8 @@ from .. import lib as L
 
 T = "toktrie::toktree::"
 TT = T + "TokTrie"
+TB = T + "TrieBuilder"
+BN = T + "BuilderNode"
 SVT = "toktrie::svob::SimpleVob"
 SV = SVT + "::"
 REC = "toktrie::toktree::Recognizer::"
@@ -162,6 +164,23 @@ def token_len_rule(ctx, R):
     ctx.check(any("[" in k and "]" in k for k in tmpl) and bool(dr.call_blocks(lambda d: d.endswith("Vec::<T, A>::push"))), R, "decode_raw:special-token-encoding",
               "decode_raw writes the marker byte followed by `[id]`", "decode_raw's encoding of special tokens changed (templates: %s)" % tmpl, site=dr.where())
 
+
+
+def builder_first_match(ctx, R):
+    """shared by C16-R6 and C01-R6"""
+    P = ctx.prog
+    ins = ctx.body(TB + "::insert")
+    # first-match agreement: readers (child_at_byte, the root cache) continue a path through the FIRST child with a given byte;
+    # the builder must therefore search the whole sibling list (first_child, then next_sibling ...) before it appends a new
+    # child — looking only at the most recent child makes duplicates of a prefix hang their subtree under a later sibling
+    walk = [bi for bi, (w, m, r) in P.block_effects(ins).items() if (BN, "next_sibling") in r]
+    fc = [bi for bi, (w, m, r) in P.block_effects(ins).items() if (BN, "first_child") in r]
+    in_loop = [bi for bi in walk if bi in ins.reachable(bi, cut_blocks=()) and any(bi in ins.reachable(s_) for s_ in ins.succs(bi))]
+    ctx.check(bool(fc) and bool(in_loop), R, "insert:searches-whole-sibling-list",
+              "the non-root branch walks first_child / next_sibling in a loop to find an existing child",
+              "TrieBuilder::insert no longer walks the sibling list (first_child → next_sibling) to find an existing child: a duplicate "
+              "token's subtree is attached to a child that byte-navigating readers (child_at_byte: first match) never reach",
+              site=ins.where())
 
 
 def run(ctx):
@@ -378,6 +397,7 @@ def _rest(ctx, P):
                   "the %s is set only while it is still NO_NODE (first writer wins)" % what,
                   "TrieBuilder::insert overwrites the %s: duplicate tokens make the root cache and the sibling list disagree on which child "
                   "continues a path, so longer tokens hang under a node that byte-navigating readers never reach" % what, site=ins.where(wr[0]) if wr else ins.where())
+    builder_first_match(ctx, "C16-R6")
     # the empty-word slot is write-once as well
     g = L.guard_edges(ins, lambda e: e[0] == "bin" and e[1] == "Eq" and L.is_field_read(BN, "token_id")(L.strip_wrappers(e[2])) and "NO_TOKEN" in repr(e[3]), True)
     ctx.check(bool(g), "C16-R6", "write-once:root-token", "the root token id is asserted to be unset before being assigned",
